@@ -247,6 +247,9 @@ func (e *Exec) branch(c *Term) bool {
 	r, m := e.query(cond(!first), "feasibility")
 	switch r {
 	case "sat":
+		if os.Getenv("GOSYM_DEBUG_FORK") != "" {
+			fmt.Fprintf(os.Stderr, "fork at %s\n", e.stackString(6))
+		}
 		e.pushAlt(Decision{Kind: 'b', B: !first}, m)
 	case "unsat":
 	default:
